@@ -25,7 +25,8 @@ META = {
             "archive; dump leaves no temporary file. (3) METADATA: update() writes one plain-data document with exactly the public "
             "fields; `_path` is the only hidden field; every metadata setter of the EKO writes after the change (recording mock). "
             "(4) YAML: all readers are safe_load; every payload written with the unsafe dumper passed the serialisation "
-            "normaliser. (5) the per-stem file invariant shared with C37, and Target.from_ep / Target.ep being mutually inverse.",
+            "normaliser. (5) the per-stem file invariant shared with C37, and Target.from_ep / Target.ep being mutually inverse."
+            " An in-place change of a looked-up operator saved by assigning the same object is read back changed; an edit session opened through a relative path with the working directory changed before close() ends up in the archive that was opened.",
     "note": "Bitwise identity of arrays through numpy/lz4/tar is the libraries' behaviour and enters as the token model; the card and "
             "metadata READ side (from_dict) is decided under C40 and mocked here.",
     "technique": "partial evaluation of the repository's writers and readers on a model file system (structured tokens for numpy/lz4/yaml/tar), element-wise identity of what is read back; sanitizer-to-sink rule for YAML payloads",
